@@ -520,9 +520,10 @@ DAEMON_NOTE = ("Trusted: Lean kernel; the per-transaction models and the routing
 
 PROPS["C11"] = dict(
     title="Concurrent transactions are isolated; stray PDUs cannot disturb the daemon",
-    module="Cfdp.Props.C11",
+    module="Cfdp.Props.C11s",
     namespace="Cfdp.Daemon",
-    theorems=["C11_route_isolated", "C11_stray_discarded", "C11_spawn", "C11_ids_distinct"],
+    theorems=["C11_route_isolated", "C11_stray_discarded", "C11_spawn", "C11_ids_distinct",
+              "Cfdp.System.C11_isolated_step", "Cfdp.System.C11_isolated_run", "Cfdp.System.C11_table_step", "Cfdp.System.C11_commute"],
     engines=["daemon"],
     design="§6 C11",
     technique="Lean 4 proofs over a model of the daemon's routing table + differential correspondence of the routing decisions + implementation-level oracles on two real daemons under a virtual clock",
@@ -532,6 +533,11 @@ PROPS["C11"] = dict(
                 "a known entity creates exactly its own entry (C11_spawn); the identifiers handed out for Put requests over any history of PDUs, Puts, task ends and clean-ups "
                 "are pairwise distinct (C11_ids_distinct; the counter wraps in the code after 2^width requests, the model counts in N). Each transaction's behaviour is a "
                 "function of its own state and the events routed to it (the Recv / Send models take no other input), so isolation of behaviour reduces to isolation of routing. "
+                "That reduction is itself a theorem over a model of the whole daemon (Model/System.lean: the table plus the state of every transaction task, operations = a PDU "
+                "arriving, a loop iteration of some task, a Put, the clean-up; Props/C11s.lean): an operation leaves the state and the table entry of every transaction it does "
+                "not concern exactly as they were (C11_isolated_step, C11_table_step), so over any interleaving of other transactions' PDUs, strays, timers, commands and Puts a "
+                "transaction's state does not change (C11_isolated_run), and two operations concerning different transactions can be performed in either order with the same "
+                "result for every transaction (C11_commute): each transaction behaves as if it ran alone, to which C01-C10 / C17-C20 then apply. "
                 "Checked on the real daemons (oracles, not theorems): 2-6 concurrent transfers in both directions and mixed modes each deliver their own file to their own "
                 "destination and report their own outcome (own_file), ids distinct (distinct_ids), daemons still running after stray / replayed PDUs (daemon_alive), a receive "
                 "transaction started by a stray ends by its own limits (daemon_bounded); with nothing lost on the link every transaction reports exactly one, successful outcome "
@@ -542,7 +548,7 @@ PROPS["C11"] = dict(
           "distinct contents; EOF / Finished / ACK PDUs delivered up to 700 ms late so that transactions overlap the strays) plus 2-6 injected strays each: a Finished PDU for a "
           "sender that does not exist, a PDU naming entity 77 (no transport), a file-data or EOF PDU with a fresh id that legitimately starts a receive transaction nobody "
           "continues, and responses / data / cancelling EOFs of foreign entities 3 and 77 carrying the sequence number of a live transaction. Non-trivial = a routing line with at least one delivered PDU."),
-    assumptions=["transaction tasks share nothing but the filestore and the channels to the daemon (Rust ownership: each task owns its transaction value)"],
+    assumptions=["transaction tasks share nothing but the filestore and the channels to the daemon (Rust ownership: each task owns its transaction value); in Model/System.lean each task has its own filestore value, and the composition (the daemon hands a routed PDU to that task and does nothing else) is tied to the code by the routing-key trace and the end-to-end oracles only"],
     unproved=["that the real tasks do not interfere through the shared filestore or channel back-pressure is an oracle (own_file, daemon_bounded), not a theorem"],
 )
 
